@@ -1010,11 +1010,34 @@ pub fn rhistory_strategy() -> BoxedStrategy<RHistory> {
             ];
             // most histories start by configuring an embedded image (the part of the output that depends on both
             // margin and symbol size)
-            (any::<bool>(), vec(op, 2..14)).prop_map(move |(img, mut ops)| {
+            (any::<bool>(), vec(op, 2..14), vec(any::<u8>(), 14)).prop_map(move |(img, ops, sel)| {
+                // "last value wins": in front of about every third setter call of a last-value-wins option the SAME setter
+                // is called with another value (smaller, larger, zero, another colour)
+                let mut out: Vec<ROp> = Vec::with_capacity(ops.len() * 2 + 1);
                 if img {
-                    ops.insert(0, ROp::Set(SvgOp::Image("logo.png".to_string())));
+                    out.push(ROp::Set(SvgOp::Image("logo.png".to_string())));
                 }
-                RHistory { qrs: qrs.clone(), ops }
+                for (i, op) in ops.into_iter().enumerate() {
+                    let s = sel[i % sel.len()];
+                    if s % 3 == 0 {
+                        let other = match &op {
+                            ROp::Set(SvgOp::ImageSize(x)) => Some(SvgOp::ImageSize(match s / 3 % 3 { 0 => 0.5, 1 => x + 3.5, _ => (x / 2.0).max(0.25) })),
+                            ROp::Set(SvgOp::ImageGap(g)) => Some(SvgOp::ImageGap(match s / 3 % 3 { 0 => 0.0, 1 => g + 2.5, _ => g + 7.0 })),
+                            ROp::Set(SvgOp::Margin(m)) => Some(SvgOp::Margin((m + 1 + (s as usize / 3) % 5) % 9)),
+                            ROp::Set(SvgOp::ImagePosition(x, y)) => Some(SvgOp::ImagePosition(*y + 1.0, *x)),
+                            ROp::Set(SvgOp::ImageBgShape(k)) => Some(SvgOp::ImageBgShape((k + 1) % 3)),
+                            ROp::Set(SvgOp::Background(_)) => Some(SvgOp::Background(ColorSpec::Rgb([(s / 3) * 3, 40, 200]))),
+                            ROp::Set(SvgOp::ModuleColor(_)) => Some(SvgOp::ModuleColor(ColorSpec::Rgb([10, (s / 3) * 3, 90]))),
+                            ROp::Set(SvgOp::ImageBgColor(_)) => Some(SvgOp::ImageBgColor(ColorSpec::Rgb([250, 250, (s / 3) * 3]))),
+                            _ => None,
+                        };
+                        if let Some(o) = other {
+                            out.push(ROp::Set(o));
+                        }
+                    }
+                    out.push(op);
+                }
+                RHistory { qrs: qrs.clone(), ops: out }
             })
         })
         .boxed()
@@ -1329,7 +1352,9 @@ fn p_op() -> BoxedStrategy<SvgOp> {
         2 => palette_rgb().prop_map(SvgOp::Background),
         1 => (any::<[u8; 3]>(), prop_oneof![Just(0u8), Just(128u8), 1u8..255]).prop_map(|(c, a)| SvgOp::Background(ColorSpec::Rgba([c[0], c[1], c[2], a]))),
         1 => (0usize..6).prop_map(|s| SvgOp::Shape(s, None)),
-        1 => (2u32..12).prop_map(|x| SvgOp::ImageSize(x as f64 / 2.0)),
+        2 => (2u32..20).prop_map(|x| SvgOp::ImageSize(x as f64 / 2.0)),
+        2 => (0u32..10).prop_map(|x| SvgOp::ImageGap(x as f64 / 2.0)),
+        1 => (0u32..40, 0u32..40).prop_map(|(x, y)| SvgOp::ImagePosition(x as f64 / 2.0, y as f64 / 2.0)),
     ]
     .boxed()
 }
